@@ -77,6 +77,12 @@ ENS((q_case == 2 && !RESTRICT_BAD_FLAGS(flags)) ==> (Q_n == 1 && Q_a[0] == set
 /* hwloc_topology_allow: whenever it fails the allowed sets are unchanged (C02: EINVAL leaves the topology
  * untouched); on success only the allowed sets change. */
 #define ROOT(t) ((t)->levels[0][0])
+#define ALLOW_OK(t) (LOADED(t) && ((t)->flags & HWLOC_TOPOLOGY_FLAG_INCLUDE_DISALLOWED))
+/* the intersects query (a,b) was made / its (ghost) result */
+#define QHAS(a, b)  ((Q_n >= 1 && Q_a[0] == (a) && Q_b[0] == (b)) || (Q_n >= 2 && Q_a[1] == (a) && Q_b[1] == (b)))
+#define QRES(a, b)  ((Q_n >= 1 && Q_a[0] == (a) && Q_b[0] == (b)) ? F_intersects_1 : F_intersects_2)
+/* the OTHER set was given, checked first and rejected (then this one need not be looked at) */
+#define QRES_FALSE_FIRST(a, b, given) ((given) && Q_n == 1 && Q_a[0] == (a) && Q_b[0] == (b) && !F_intersects_1)
 static int verif_get_allowed_resources(hwloc_topology_t topology)
 {
   topology->allowed_cpuset->version++; topology->allowed_nodeset->version++;
@@ -99,6 +105,19 @@ ENS(RET == -1 ==> (topology->allowed_cpuset->version == __CPROVER_old(topology->
                    && topology->allowed_nodeset->version == __CPROVER_old(topology->allowed_nodeset->version)))
 ENS((flags & ~(unsigned long)(HWLOC_ALLOW_FLAG_ALL | HWLOC_ALLOW_FLAG_LOCAL_RESTRICTIONS | HWLOC_ALLOW_FLAG_CUSTOM)) ==> (RET == -1 && verif_errno == EINVAL))
 ENS((!LOADED(topology) || !(topology->flags & HWLOC_TOPOLOGY_FLAG_INCLUDE_DISALLOWED)) ==> (RET == -1 && verif_errno == EINVAL))
+/* CUSTOM: a given set must intersect the corresponding ROOT set (order of the two queries is free) */
+ENS((ALLOW_OK(topology) && flags == HWLOC_ALLOW_FLAG_CUSTOM && cpuset != NULL && !QRES_FALSE_FIRST(ROOT(topology)->nodeset, nodeset, nodeset != NULL))
+    ==> QHAS(ROOT(topology)->cpuset, cpuset))
+ENS((ALLOW_OK(topology) && flags == HWLOC_ALLOW_FLAG_CUSTOM && cpuset != NULL && QHAS(ROOT(topology)->cpuset, cpuset) && !QRES(ROOT(topology)->cpuset, cpuset))
+    ==> (RET == -1 && verif_errno == EINVAL))
+ENS((ALLOW_OK(topology) && flags == HWLOC_ALLOW_FLAG_CUSTOM && nodeset != NULL && !QRES_FALSE_FIRST(ROOT(topology)->cpuset, cpuset, cpuset != NULL))
+    ==> QHAS(ROOT(topology)->nodeset, nodeset))
+ENS((ALLOW_OK(topology) && flags == HWLOC_ALLOW_FLAG_CUSTOM && nodeset != NULL && QHAS(ROOT(topology)->nodeset, nodeset) && !QRES(ROOT(topology)->nodeset, nodeset))
+    ==> (RET == -1 && verif_errno == EINVAL))
+/* ALL and LOCAL_RESTRICTIONS take no set */
+ENS((ALLOW_OK(topology) && (flags == HWLOC_ALLOW_FLAG_ALL || flags == HWLOC_ALLOW_FLAG_LOCAL_RESTRICTIONS) && (cpuset != NULL || nodeset != NULL))
+    ==> (RET == -1 && verif_errno == EINVAL))
+ENS((ALLOW_OK(topology) && flags == HWLOC_ALLOW_FLAG_ALL && cpuset == NULL && nodeset == NULL) ==> RET == 0)
 ;
 #endif
 
